@@ -492,3 +492,5 @@ PROPS['C12']['units'].append({'test': 'TestC12Concurrent', 'checks': {'quick': 4
 PROPS['C12']['required_classes']['all'].append('concurrent-lookups-of-different-tables')
 PROPS['C13']['required_classes']['all'] += ['operation-names-in-other-letter-case', 'text-forms-in-a-32-bit-process']
 PROPS['C17']['required_classes']['all'] += ['cache-holds-the-dump-of-an-earlier-build', 'overlapping-runs-in-separate-pid-namespaces']
+PROPS['C11']['units'].append({'test': 'TestC11Sandbox', 'checks': {'quick': 96, 'thorough': 2000}, 'shards': {'quick': 4, 'thorough': 8}, 'helpers': _SANDBOX, 'timeout': {'quick': 300, 'thorough': 1200}})
+PROPS['C11']['required_classes']['all'] += ['sandbox:unprivileged-without-the-bit-fails', 'sandbox:target-bit=0', 'sandbox:target-bit=1']
